@@ -32,7 +32,7 @@ XONSH_PARTS = [
     ("call-macro", "f!(x, y + 1, [a, b])\n"), ("call-macro", "r = obj.m!(if x: y) + 1\n"), ("call-macro", "g!( 'a,b', (1, 2) ); z = 3\n"), ("call-macro", "h!(a\n)\n") if False else ("call-macro", "h!((a,\n b), c)\n"),
     ("with-macro", "with! ctx as c:\n    a b c\n    if x:\n        y\n"), ("with-macro", "with! m():\n\techo hi\n\tls -l\n"), ("with-macro-1", "with! ctx: echo hi; ls\n"), ("with-macro-1", "with! q as t: [1,\n    2]\n"),
     ("with-macro", "if c:\n    with! inner:\n        u v w\n    after = 1\n"), ("with-macro", "with! a:\n    # only\n    x y\n\n    z\n"),
-    ("proc-macro", "$(bash -c! echo 'hi'; ls)\n"), ("proc-macro", "![echo! a b   c]\n"), ("proc-macro", "x = !(git! commit -m 'm, n')\n"),
+    ("proc-macro", "$(bash -c! echo 'hi'; ls)\n"), ("proc-macro", "out = $(pwd!)\n"), ("proc-macro", "![echo !]\n"), ("proc-macro", "$[ls -l!]\n"), ("proc-macro", "![echo! a b   c]\n"), ("proc-macro", "x = !(git! commit -m 'm, n')\n"),
     ("path", "p'/a/b'\n"), ("path", "x = pf'/a/{b}' / pr'\\c'\n"), ("path", "y = (p\"a\" 'b')\n"), ("path", "z = f(p'q', pf\"{r}\")\n"),
     ("help", "x?\n"), ("help", "a.b??\n"), ("help", "v = b?.c?\n"),
     ("backtick", "y = `.*\\.py`\n"), ("backtick", "z = g`*.py` + @foo`bar`\n"),
@@ -108,6 +108,8 @@ def search(rec, ctx):
         elif r < 0.55:
             c = xonsh.call_macro_case(rnd)
             k, s = "call-macro", c["ctx"].replace("{M}", c["macro"])
+        elif r < 0.58:
+            k, s = "proc-macro", "r = " + xonsh.proc_macro_case(rnd)["text"] + "\n"
         elif r < 0.6:
             g = FGen(rnd)
             k, s = "fstring", g.statement()
